@@ -12,6 +12,15 @@ use std::sync::Mutex;
 
 pub static LAST_PANIC: Mutex<String> = Mutex::new(String::new());
 
+#[cfg(any(target_arch = "x86_64", target_arch = "x86"))]
+pub fn detect_calls() -> i64 {
+    cpufeatures::verif::calls() as i64
+}
+#[cfg(not(any(target_arch = "x86_64", target_arch = "x86")))]
+pub fn detect_calls() -> i64 {
+    0
+}
+
 fn arg(args: &[String], name: &str) -> Option<String> {
     args.iter().position(|a| a == name).and_then(|i| args.get(i + 1).cloned())
 }
@@ -25,9 +34,12 @@ fn main() {
     let monitor = args[1].clone();
     let detect_off = arg(&args, "--detect").map(|v| v == "off").unwrap_or(false);
     // must happen before any cipher is constructed and never change afterwards
-    cpufeatures::verif::set_force_absent(detect_off);
-    if let Some(d) = arg(&args, "--detect-delay") {
-        cpufeatures::verif::set_delay(d.parse().unwrap_or(0));
+    #[cfg(any(target_arch = "x86_64", target_arch = "x86"))]
+    {
+        cpufeatures::verif::set_force_absent(detect_off);
+        if let Some(d) = arg(&args, "--detect-delay") {
+            cpufeatures::verif::set_delay(d.parse().unwrap_or(0));
+        }
     }
     // panics are observations, not crashes: remember the message, stay quiet
     std::panic::set_hook(Box::new(|info| {
@@ -57,6 +69,7 @@ fn main() {
         "weak" => monitors::weak::run(&ctx),
         "names" => monitors::names::run(&ctx),
         "wblock" => monitors::wblock::run(&ctx),
+        "zeroize" => monitors::zeroize::run(&ctx),
         "dump-names" => {
             for t in registry::types() {
                 let k = vec![0x42u8; if (t.accepts)(t.key_size) { t.key_size } else { (0..400).find(|l| (t.accepts)(*l)).unwrap_or(0) }];
@@ -65,6 +78,7 @@ fn main() {
             }
             return;
         }
+        "noop" => return,
         "list" => {
             for e in registry::entries() {
                 println!("{}\t{}\t{}\t{:?}", e.id(), e.family, e.prop, e.key_lens);
@@ -99,7 +113,7 @@ fn main() {
         ("status", J::s(status)),
         ("miri", J::B(cfg!(miri))),
         ("debug_assertions", J::B(cfg!(debug_assertions))),
-        ("detect_calls", J::I(cpufeatures::verif::calls() as i64)),
+        ("detect_calls", J::I(detect_calls())),
         ("argv", J::A(args.iter().map(J::s).collect())),
     ]);
     let text = j.to_string();
